@@ -93,27 +93,27 @@ Qed.
 (* ------------------------------------------------------------------------------------------ *)
 (* ANM sprites: the compile-time constant is the id the writer assigns *)
 
-Lemma u32_succ z : u32 z + 1 < two32 -> u32 (z + 1) = u32 z + 1.
-Proof. unfold u32, two32. intros. lia. Qed.
+Lemma u32_succ z : u32 (u32 z + 1) = u32 (z + 1).
+Proof. unfold u32, two32. lia. Qed.
 
-Lemma const_vs_written : forall l base k next w,
+Lemma const_vs_written wraps : forall l base k next w,
   u32 (base + k) = next ->
-  written_ids 1 next l = Ok w ->
+  written_ids wraps 1 next l = Ok w ->
   exists cs, const_ids SeqAdd 0 base k l = Ok cs /\ map (fun p => u32 (snd p)) cs = w /\ map fst cs = map sd_name l.
 Proof.
   induction l as [|s l IH]; intros base k next w Hn H.
   - cbn in H. inversion H. exists []. auto.
   - cbn [written_ids] in H. cbn [const_ids seq_apply].
     set (id := match sd_id s with Some e => u32 e | None => next end) in *.
-    destruct (Z.leb_spec two32 (id + 1)) as [|Hlt]; [discriminate|].
-    destruct (written_ids 1 (id + 1) l) as [r| | |] eqn:W; try discriminate. cbn [obind] in H. inversion H; subst w. clear H.
+    destruct (negb wraps && (two32 <=? id + 1))%bool; [discriminate|].
+    destruct (written_ids wraps 1 (u32 (id + 1)) l) as [r| | |] eqn:W; try discriminate. cbn [obind] in H. inversion H; subst w. clear H.
     destruct (sd_id s) as [e|] eqn:Es.
-    + subst id. destruct (IH e (0 + 1) (u32 e + 1) r) as (cs & C1 & C2 & C3); auto.
-      { rewrite Z.add_0_l. now apply u32_succ. }
+    + subst id. destruct (IH e (0 + 1) (u32 (u32 e + 1)) r) as (cs & C1 & C2 & C3); auto.
+      { rewrite Z.add_0_l. symmetry. apply u32_succ. }
       rewrite C1. cbn [obind]. eexists. split; [reflexivity|]. cbn [map fst snd]. rewrite C2, C3.
       rewrite u32_wrap32, Z.add_0_r. auto.
-    + subst id. destruct (IH base (k + 1) (next + 1) r) as (cs & C1 & C2 & C3); auto.
-      { rewrite Z.add_assoc, <- Hn. apply u32_succ. now rewrite Hn. }
+    + subst id. destruct (IH base (k + 1) (u32 (next + 1)) r) as (cs & C1 & C2 & C3); auto.
+      { rewrite Z.add_assoc, <- Hn. symmetry. apply u32_succ. }
       rewrite C1. cbn [obind]. eexists. split; [reflexivity|]. cbn [map fst snd]. rewrite C2, C3.
       rewrite u32_wrap32, Hn. auto.
 Qed.
@@ -157,8 +157,8 @@ Proof.
   destruct (const_ids SeqAdd 0 0 0 decls) as [consts| | |] eqn:C; try discriminate. cbn [obind] in H.
   match type of H with (do args <- omap ?f ?l; _) = _ => destruct (omap f l) as [args0| | |] eqn:A; try discriminate end.
   cbn [obind] in H. destruct (consistent consts) eqn:Cs; [|discriminate]. cbn [negb] in H.
-  destruct (written_ids 1 0 decls) as [w| | |] eqn:W; try discriminate. cbn [obind] in H. inversion H; subst tbl args. clear H.
-  destruct (const_vs_written decls 0 0 0 w eq_refl W) as (cs & C1 & C2 & C3).
+  destruct (written_ids (it_writer_wraps T) 1 0 decls) as [w| | |] eqn:W; try discriminate. cbn [obind] in H. inversion H; subst tbl args. clear H.
+  destruct (const_vs_written _ decls 0 0 0 w eq_refl W) as (cs & C1 & C2 & C3).
   rewrite C in C1. inversion C1; subst cs. clear C1.
   assert (Lw : length w = length decls).
   { rewrite <- C2, map_length, <- (map_length fst), C3, map_length. reflexivity. }
@@ -211,29 +211,35 @@ Proof.
     rewrite A in X. exact X.
 Qed.
 
-(* defect #18 of DESIGN section 6: an id of 0xFFFFFFFF makes `sprite_id + 1` overflow in write_entry *)
-Theorem sprite_id_overflow_refuted :
-  exists inp, compile_anm T inp = Panic P_OVERFLOW.
+(* defect #18 of DESIGN section 6 (repaired in /repo by b32efe8: wrapping_add): the wrapping writer never fails, so with
+   the current table a compile can only fail with a diagnostic *)
+Lemma written_ids_wrapping_total : forall l step next, exists w, written_ids true step next l = Ok w.
 Proof.
-  exists {| ai_entries := [[ {| sd_name := 0; sd_id := Some (-1) |} ]]; ai_scripts := [0%nat]; ai_uses := [] |}.
-  vm_compute. reflexivity.
+  induction l as [|s l IH]; intros step next; [exists []; reflexivity|].
+  cbn [written_ids negb andb].
+  destruct (IH step (u32 (match sd_id s with Some e => u32 e | None => next end + step))) as (w & Hw).
+  rewrite Hw. cbn. eauto.
 Qed.
+
+Theorem sprite_writer_is_total decls : exists w, written_ids (it_writer_wraps T) 1 0 decls = Ok w.
+Proof. change (it_writer_wraps T) with true. apply written_ids_wrapping_total. Qed.
 
 (* the positive side of the guard: with explicit ids in [0, B) and B + (number of sprites) below 2^32 the writer
    does not overflow (ids_below_2_31 of DESIGN is the instance B = 2^31) *)
 Lemma written_ids_ok B : forall l next c,
   0 <= next <= B + c -> 0 <= c -> B + c + Z.of_nat (length l) < two32 ->
   (forall d e, In d l -> sd_id d = Some e -> 0 <= e < B) ->
-  exists w, written_ids 1 next l = Ok w.
+  exists w, written_ids false 1 next l = Ok w.
 Proof.
   induction l as [|s l IH]; intros next c Hn Hc Hb He; [exists []; reflexivity|].
-  cbn [written_ids]. cbn [length] in Hb. rewrite Nat2Z.inj_succ in Hb.
+  cbn [written_ids negb andb]. cbn [length] in Hb. rewrite Nat2Z.inj_succ in Hb.
   set (id := match sd_id s with Some e => u32 e | None => next end).
   assert (Hid : 0 <= id <= B + c).
   { subst id. destruct (sd_id s) as [e|] eqn:Es; [|lia].
     specialize (He s e (or_introl eq_refl) Es). unfold u32, two32 in *. rewrite Z.mod_small; lia. }
   destruct (Z.leb_spec two32 (id + 1)); [lia|].
-  destruct (IH (id + 1) (c + 1)) as (w & Hw); try lia.
+  assert (Hu : u32 (id + 1) = id + 1) by (unfold u32, two32 in *; rewrite Z.mod_small; lia).
+  rewrite Hu. destruct (IH (id + 1) (c + 1)) as (w & Hw); try lia.
   { intros d e Hd. apply He. now right. }
   rewrite Hw. cbn. eauto.
 Qed.
@@ -241,7 +247,7 @@ Qed.
 Theorem sprite_ids_below_bound_no_overflow B decls :
   0 <= B -> B + Z.of_nat (length decls) < two32 ->
   (forall d e, In d decls -> sd_id d = Some e -> 0 <= e < B) ->
-  exists w, written_ids 1 0 decls = Ok w.
+  exists w, written_ids false 1 0 decls = Ok w.
 Proof. intros HB Hb He. apply (written_ids_ok B decls 0 0); auto; lia. Qed.
 
 (* ------------------------------------------------------------------------------------------ *)
